@@ -29,18 +29,20 @@ theorem deadcode_wf (p q : Program) (h : wf p = true) (hq : deadProgram p = some
 theorem elimOne_keeps (used : List String) (i : Imp) (s : String) (h : s ∈ i.syms.getD []) (hu : isUsed used s = true) :
     ∃ i', elimOne used i = some i' ∧ s ∈ i'.syms.getD [] := by
   unfold elimOne
-  cases hs : i.syms with
-  | none => simp [hs] at h
-  | some ss =>
-      simp only [hs, Option.getD_some] at h
-      have hmem : s ∈ ss.filter (isUsed used) := List.mem_filter.mpr ⟨h, hu⟩
-      simp only
-      by_cases he : (ss.filter (isUsed used)).isEmpty = true
-      · simp [List.isEmpty_iff.mp he] at hmem
-      · simp only [he, if_false]
-        by_cases hl : (ss.filter (isUsed used)).length < ss.length
-        · exact ⟨{ i with syms := some (ss.filter (isUsed used)) }, by simp [hl], by simp only [Option.getD_some]; exact hmem⟩
-        · exact ⟨i, by simp [hl], by simpa [hs] using h⟩
+  split
+  · rename_i hs; simp [hs] at h
+  · rename_i hs; simp [hs] at h
+  · rename_i s0 ss0 hs
+    simp only [hs, Option.getD_some] at h
+    generalize s0 :: ss0 = ss at h hs
+    have hmem : s ∈ ss.filter (isUsed used) := List.mem_filter.mpr ⟨h, hu⟩
+    simp only
+    by_cases he : (ss.filter (isUsed used)).isEmpty = true
+    · simp [List.isEmpty_iff.mp he] at hmem
+    · simp only [he, if_false]
+      by_cases hl : (ss.filter (isUsed used)).length < ss.length
+      · exact ⟨{ i with syms := some (ss.filter (isUsed used)) }, by simp [hl], by simp only [Option.getD_some]; exact hmem⟩
+      · exact ⟨i, by simp [hl], by simpa [hs] using h⟩
 
 theorem elimAll_keeps (used : List String) : ∀ imps s, s ∈ importedSyms imps → isUsed used s = true →
     s ∈ importedSyms (elimAll used imps)
@@ -58,26 +60,65 @@ theorem elimAll_keeps (used : List String) : ∀ imps s, s ∈ importedSyms imps
           | none => simp only [elimAll, he]; exact ih h1 hu
           | some i' => simp only [elimAll, he, importedSyms, List.mem_append]; right; exact ih h1 hu
 
-/-- import sanitising keeps every imported name the scope uses (`_partial`: says nothing about names that come in through a
-USE statement without ONLY list — the real code drops such statements, see `Findings/C41.lean`; what is missing for the full
-statement "every used name stays imported" is exactly the class `KnownBareUse`) -/
-theorem sanitise_imports_keeps_partial (used : List String) (imps : List Imp) (s : String)
+/-- import sanitising keeps every explicitly imported name the scope uses -/
+theorem sanitise_imports_keeps (used : List String) (imps : List Imp) (s : String)
     (h : s ∈ importedSyms imps) (hu : isUsed used s = true) : s ∈ importedSyms (elimImports used imps) := by
   unfold elimImports
   split
   · exact h
   · exact elimAll_keeps used imps s h hu
 
-/-- outside the known class the USE statements without ONLY list are all kept -/
-theorem sanitise_imports_bare_partial (used : List String) (imps : List Imp) (h : KnownBareUse used imps = false) :
-    bareModules (elimImports used imps) = bareModules imps ∨ bareModules imps = [] := by
-  unfold KnownBareUse at h
+def bareOf (i : Imp) : List String := if i.syms == some [] then [i.modname] else []
+
+theorem elimOne_bare (used : List String) (i : Imp) (r : Option Imp) (h : elimOne used i = r) :
+    (match r with | some i' => bareOf i' | none => []) = bareOf i := by
+  unfold elimOne at h
+  split at h
+  · subst h; rfl
+  · subst h; rfl
+  · rename_i s0 ss0 hs
+    simp only at h
+    have hb : bareOf i = [] := by simp [bareOf, hs]
+    generalize s0 :: ss0 = ss at h
+    by_cases he : (ss.filter (isUsed used)).isEmpty = true
+    · simp only [he, if_true] at h
+      subst h; simp [hb]
+    · simp only [he, if_false] at h
+      by_cases hl : (ss.filter (isUsed used)).length < ss.length
+      · have hne : (ss.filter (isUsed used)) ≠ [] := fun h0 => he (by simp [h0])
+        simp only [hl, if_true] at h
+        subst h
+        simp [hb, bareOf, hne, hs]
+      · simp only [hl, if_false] at h
+        subst h; rfl
+
+theorem elimAll_bare (used : List String) : ∀ imps, bareModules (elimAll used imps) = bareModules imps
+  | [] => by simp [elimAll]
+  | i :: is => by
+      have ih := elimAll_bare used is
+      simp only [elimAll]
+      cases he : elimOne used i with
+      | none =>
+          have h1 := elimOne_bare used i _ he
+          simp only at h1
+          simp only [bareModules]
+          rw [ih]
+          simp only [bareOf] at h1
+          rw [← h1]; rfl
+      | some i' =>
+          have h1 := elimOne_bare used i _ he
+          simp only at h1
+          simp only [bareModules, ih]
+          simp only [bareOf] at h1
+          rw [h1]
+
+/-- every USE statement without ONLY list survives import sanitising (full since the repair of `eliminate_unused_imports`;
+together with `sanitise_imports_keeps`: every name the scope uses that was available through its USE statements still is) -/
+theorem sanitise_imports_bare (used : List String) (imps : List Imp) :
+    bareModules (elimImports used imps) = bareModules imps := by
   unfold elimImports
-  cases hall : (importedSyms imps).all (isUsed used) with
-  | true => left; simp
-  | false =>
-      right
-      simp only [hall, Bool.not_false, Bool.and_true, Bool.not_eq_false'] at h
-      exact List.isEmpty_iff.mp h
+  split
+  · rfl
+  · exact elimAll_bare used imps
 
 end LokiModel.C41
